@@ -558,7 +558,8 @@ def gen_batch(rng, tier):
                 else:
                     groups.append("c" + hx(y)); present.add(y)
         out.append(" ".join(f[:4] + [",".join(groups)]))
-    return out
+    # native modules are outside this leg (see open_wellformed)
+    return [c for c in out if open_wellformed(c)]
 
 
 def _dec(h):
@@ -637,6 +638,11 @@ def open_wellformed(case):
     """every didOpen names a file that is on disk at that moment and is not open (didOpen of an unknown path is a
     Created event of its own: class C08 / C02, not this leg), every didClose an open one"""
     f = case.split(" ")
+    # native modules (`name.so`) are outside this leg: the theorems' domain is workspaces of .lua files, and the real server
+    # treats .so files on a route of its own (no watched-file events for them, a file-exists cache); found by the thorough
+    # tier: `require(".lua")` beside a file `lua.so` is tolerated by the server's start-up scan (no type 6)
+    if any(x[0] == "D" and _dec(x[1:]).endswith(".so") for x in f[1].split(",") if x):
+        return False
     present = set(_dec(x[1:]) for x in f[1].split(",") if x[0] in "LD")
     opened = set()
     for g in (f[4].split(",") if f[4] != "-" else []):
